@@ -625,12 +625,14 @@ func (cx *c03ctx) exec(line string) {
 		st := c03call(func() error { return cx.f.SetCellHyperLink(c03Sheet, sp, link, "Location") })
 		ln := emit(line, withDump(st))
 		cx.frameWrite(ln, ps, before, nil, "hl")
-		if st == "ok" && ok && c03canonical(sp, c, ro) {
+		if st == "ok" && ok && sp == c03name(c, ro) { // GetCellHyperLink compares the raw spelling: other spellings are C20's finding
 			found, target, err := cx.f.GetCellHyperLink(c03Sheet, sp)
 			if err != nil || !found || target != link {
 				sig := "hyperlink:readback"
-				if as := cx.anchors(c, ro); len(as) == 1 && (as[0] != c03pos{c, ro}) {
-					sig = "redirect:hyperlink-get-not-redirected"
+				for _, a := range cx.anchors(c, ro) {
+					if (a != c03pos{c, ro}) {
+						sig = "redirect:hyperlink-get-not-redirected"
+					}
 				}
 				r.Fail(sig, fmt.Sprintf("SetCellHyperLink(%s, %q) then GetCellHyperLink(%s) = %v %q (%v)", sp, link, sp, found, target, err), ln, cx.replay())
 			}
@@ -665,14 +667,27 @@ func (cx *c03ctx) exec(line string) {
 		}
 		after := cx.observe(ps)
 		if w[0] == "mrg" {
+			// "merging clears the non-anchor cells": reads inside the range are redirected, so the stored
+			// cells are inspected (internal dump): value, type, inline string and formula must be gone
+			stored := c03dumpCells(res)
+			for name, tk := range stored {
+				c, ro, _ := xl.CellNameToCoordinates(name)
+				if c03inRect(q, c, ro) && !(c == q[0] && ro == q[1]) {
+					if f := strings.Split(tk, ","); len(f) != 5 || f[1] != "~" || f[2] != "-" || f[3] != "~" || f[4] != "~" {
+						r.Fail("merge:not-cleared", fmt.Sprintf("MergeCell %s:%s left %s = %s", s1, s2, name, tk), ln, cx.replay())
+					}
+				}
+			}
+			anchorObs := after[c03pos{q[0], q[1]}]
 			for _, p := range ps {
-				in := c03inRect(q, p.c, p.r) && !(p.c == q[0] && p.r == q[1])
+				in := c03inRect(q, p.c, p.r)
 				if in {
-					if after[p] != `""|0|""` {
-						r.Fail("merge:not-cleared", fmt.Sprintf("MergeCell %s:%s left %s = %s", s1, s2, c03name(p.c, p.r), after[p]), ln, cx.replay())
+					// all cells of a merged range read the same (when the position is in no other range)
+					if !cx.inAnyRange(p.c, p.r) && !cx.inAnyRange(q[0], q[1]) && after[p] != anchorObs {
+						r.Fail("redirect:range-reads-differ", fmt.Sprintf("after MergeCell %s:%s, %s reads %s but the anchor reads %s", s1, s2, c03name(p.c, p.r), after[p], anchorObs), ln, cx.replay())
 					}
 				} else if after[p] != before[p] {
-					// a cell outside the new range may legitimately change only if it reads through an older range whose anchor was cleared
+					// a cell outside the new range may change only if it reads through an older range whose anchor was cleared
 					if as := cx.anchors(p.c, p.r); !(len(as) >= 1 && (as[0] != p)) {
 						r.Fail("frame:merge-changed-other-cell", fmt.Sprintf("MergeCell %s:%s changed %s: %s -> %s", s1, s2, c03name(p.c, p.r), before[p], after[p]), ln, cx.replay())
 					}
@@ -681,8 +696,8 @@ func (cx *c03ctx) exec(line string) {
 			cx.merges = append(cx.merges, q)
 			r.Stat("merge:" + cx.classify(q))
 		} else {
-			cx.frameWrite(ln, ps, before, nil, "unm")
 			_, rep := c03dumpMerges(res)
+			cx.frameMerges(ln, ps, before, after, rep, "unm")
 			cx.checkReported(ln, rep, &q)
 			cx.merges = rep
 		}
@@ -701,8 +716,8 @@ func (cx *c03ctx) exec(line string) {
 		}
 		res := withDump(st)
 		ln := emit(line, res)
-		cx.frameWrite(ln, ps, before, nil, "gm")
 		refs, rep := c03dumpMerges(res)
+		cx.frameMerges(ln, ps, before, cx.observe(ps), rep, "gm")
 		if st == "ok" && !viaHook {
 			var api []string
 			for _, m := range got {
@@ -835,6 +850,40 @@ func (cx *c03ctx) frameWrite(ln int, ps []c03pos, before map[c03pos]string, targ
 	}
 }
 
+// frameMerges: normalising / unmerging must not change what any position outside all (old and new)
+// merged ranges reads; inside them a read is redirected, so it may change with the range list.
+func (cx *c03ctx) frameMerges(ln int, ps []c03pos, before, after map[c03pos]string, rep [][4]int, what string) {
+	for _, p := range ps {
+		if before[p] == after[p] {
+			continue
+		}
+		inside := false
+		for _, q := range append(append([][4]int{}, cx.merges...), rep...) {
+			if c03inRect(q, p.c, p.r) {
+				inside = true
+			}
+		}
+		if !inside {
+			cx.r.Fail("frame:"+what+"-changed-other-cell", fmt.Sprintf("%s changed %s: %s -> %s", what, c03name(p.c, p.r), before[p], after[p]), ln, cx.replay())
+		}
+	}
+}
+
+// c03dumpCells parses the non-blank stored cells of a dump: reference -> content token
+func c03dumpCells(d string) map[string]string {
+	m := map[string]string{}
+	i := strings.LastIndex(d, " M=")
+	if i < 0 {
+		return m
+	}
+	for _, w := range strings.Fields(d[:i]) {
+		if k := strings.Index(w, "="); k > 0 && w[0] >= 'A' && w[0] <= 'Z' {
+			m[w[:k]] = w[k+1:]
+		}
+	}
+	return m
+}
+
 // checkReported: reported ranges pairwise disjoint; nothing previously merged is lost (unless unmerged); after
 // UnmergeCell(q) no reported range intersects q.
 func (cx *c03ctx) checkReported(ln int, rep [][4]int, unmerged *[4]int) {
@@ -865,6 +914,15 @@ func (cx *c03ctx) checkReported(ln int, rep [][4]int, unmerged *[4]int) {
 			r.Fail("merge:range-lost", fmt.Sprintf("merged range %s is not contained in any reported range after normalisation", c03rectRef(old)), ln, cx.replay())
 		}
 	}
+}
+
+func (cx *c03ctx) inAnyRange(c, r int) bool {
+	for _, q := range cx.merges {
+		if c03inRect(q, c, r) {
+			return true
+		}
+	}
+	return false
 }
 
 func c03rectRef(q [4]int) string { return c03name(q[0], q[1]) + ":" + c03name(q[2], q[3]) }
